@@ -71,7 +71,10 @@ OrderRemapping(c, m) ==
 \* position of a record in `live` is its position in c.recs.
 FirstOwner(live, x) == LET o == {j \in 1..Len(live) : x \in AllP(live[j])} IN
                        IF o = {} THEN 0 ELSE CHOOSE j \in o : \A k \in o : j <= k
-IdxOfCanon(c, p) == CHOOSE i \in 1..Len(c.recs) : c.recs[i].p = p
+\* 0 when the index names a canonical prefix no record has (only possible in an inconsistent
+\* converter; the code would raise KeyError there)
+IdxOfCanon(c, p) == IF \E i \in 1..Len(c.recs) : c.recs[i].p = p
+                    THEN CHOOSE i \in 1..Len(c.recs) : c.recs[i].p = p ELSE 0
 \* `old` will be handed to another record: some applicable pair maps onto it
 Taken(c, m, old) == \E i \in 1..Len(m) : m[i][2] = old /\ Has(c.s2p, m[i][1])
 RECURSIVE RemapLoop(_, _, _, _)
@@ -79,6 +82,7 @@ RemapLoop(c, m, live, seq) ==
   IF seq = <<>> THEN live
   ELSE LET old == seq[1][1]  new == seq[1][2] IN
        IF ~Has(c.s2p, old) THEN RemapLoop(c, m, live, Tail(seq))                    \* unknown: skip
+       ELSE IF IdxOfCanon(c, Get(c.s2p, old)) = 0 THEN RemapLoop(c, m, live, Tail(seq))
        ELSE LET i   == IdxOfCanon(c, Get(c.s2p, old))
                 rec == live[i]
                 own == FirstOwner(live, new)
